@@ -497,10 +497,10 @@ func init() {
 		m := getModel()
 		defer putModel(m)
 		rng := newRand(17)
-		for i := 0; i < tierN(900, 30000); i++ {
+		for i := 0; i < tierN(900, 30000) && !expired(); i++ {
 			c17Case(r, m, rng, i, i%3 == 2)
 		}
-		for i := 0; i < tierN(120, 3000); i++ {
+		for i := 0; i < tierN(120, 3000) && !expired(); i++ {
 			c17Registry(r, rng, i)
 		}
 		r.Validated = r.Evaluations
